@@ -355,6 +355,19 @@ pub fn gen_operand(rng: &mut Rng, grid: &[i32]) -> i32 {
     }
 }
 
+/// Miri slice: `n` operand triples per type (grid values and generated operands), every operation.
+pub fn miri(ctx: &mut Ctx, acc: &mut Acc, n: usize) {
+    let g = grid();
+    for which in 0..2u8 {
+        let bin = Bin { which };
+        let mut rng = Rng::derive(ctx.seed, "c15-binary-miri", which as u64);
+        for i in 0..n {
+            let (a, b, c) = if i % 3 == 0 { (*rng.pick(&g), *rng.pick(&g), *rng.pick(&g)) } else { (gen_operand(&mut rng, &g), gen_operand(&mut rng, &g), gen_operand(&mut rng, &g)) };
+            bin.case(ctx, acc, a, b, c, &OPS);
+        }
+    }
+}
+
 pub fn run(ctx: &mut Ctx, acc: &mut Acc) {
     let g = grid();
     ctx.count("binary:grid_values", if ctx.shard.0 == 0 { g.len() as u64 } else { 0 });
